@@ -29,7 +29,12 @@ ObjOf(sn) ==
            codes == Split(sn.f, ",")
        IN [nil |-> FALSE, fam |-> sn.fam, lvl |-> sn.lvl, ver |-> sn.ver,
            f |-> [n \in Range(names) |-> codes[CHOOSE i \in 1..Len(names) : names[i] = n]],
-           names |-> IF sn.names = "" THEN {} ELSE Range(Split(sn.names, ","))]
+           \* "~": the implementation keeps its bookkeeping in a shape the harness cannot read; then a metric counts
+           \* as recorded when its exported field holds a value
+           names |-> IF sn.names = "" THEN {}
+                     ELSE IF sn.names = "~" THEN {names[i] : i \in {j \in 1..Len(names) : codes[j] # UnknownCode}}
+                     ELSE Range(Split(sn.names, ","))]
+NamesReadable(sn) == sn.nil \/ sn.names # "~"
 SnapOk(sn) == sn.nil \/ Len(Split(sn.f, ",")) = Len(NamesUpTo(sn.fam, sn.lvl))
 
 QueryVerdict(ev) ==
@@ -49,6 +54,7 @@ QueryVerdict(ev) ==
      ELSE IF Has(ev, "twin") /\ ~Invalid(o) /\ ev.twin # r1
           THEN "history:" \o op.q \o " via " \o op.via \o " differs from the same query on a freshly decoded twin (fields " \o sn.f \o ")"
      \* diagnostics last, so that they never mask a violation
+     ELSE IF ~NamesReadable(sn) THEN "ok"
      ELSE IF op.q \in {"Encode", "String"} /\ SnapOk(sn) /\ r1.str # EncodeText(o)
           THEN "drift:" \o op.q \o " via " \o op.via \o " returns '" \o r1.str \o "', the implementation-shaped model says '" \o EncodeText(o) \o "'"
      ELSE IF op.q \in {"GetError", "Encode"} /\ SnapOk(sn) /\ (\A n \in DOMAIN o.f : o.f[n] = UnknownCode \/ o.f[n] \in CodesOf(o.fam, n))
@@ -79,7 +85,7 @@ Decode2Verdict(ev) ==
      \* "a usable object and no error": whatever the receiver went through, an object returned without an error is valid
      ELSE IF ev.ok /\ SnapOk(y) /\ Invalid(ObjOf(y))
           THEN "fabricated:Decode of '" \o ev.op.s \o "' into a used receiver returned no error and an object that is not usable (fields " \o y.f \o ", version " \o y.ver \o ")"
-     ELSE IF r.nil \/ ~SnapOk(r) THEN "ok"
+     ELSE IF r.nil \/ ~SnapOk(r) \/ ~NamesReadable(r) THEN "ok"
      ELSE LET o == ObjOf(r)
               m == DecodeFrom(r.fam, r.lvl, [names |-> o.names, f |-> o.f], o.ver, ev.op.s)
           IN IF m.ok # ev.ok THEN "drift:reused receiver: the operational model " \o (IF m.ok THEN "accepts" ELSE "rejects") \o " '" \o ev.op.s \o "'"
@@ -92,7 +98,7 @@ StepVerdict(ev) ==
     [] ev.op.op = "decode2" -> Decode2Verdict(ev)
     [] ev.op.op = "decode" -> DecodeVerdict(ev)
     [] ev.op.op = "new" -> (IF ev.panic # "" THEN "panic:constructor"
-                            ELSE IF ObjOf(ev.snaps["r"]) # Fresh(ev.snaps["r"].fam, ev.snaps["r"].lvl) THEN "drift:constructor state" ELSE "ok")
+                            ELSE IF NamesReadable(ev.snaps["r"]) /\ ObjOf(ev.snaps["r"]) # Fresh(ev.snaps["r"].fam, ev.snaps["r"].lvl) THEN "drift:constructor state" ELSE "ok")
     [] ev.op.op = "nil" -> (IF ev.snaps["r"].nil THEN "ok" ELSE "harness:nil receiver")
     [] ev.op.op \in {"set", "setgroup"} -> (IF ev.panic # "" THEN "harness:set panicked" ELSE "ok")
     [] OTHER -> "harness:unknown op"
